@@ -43,7 +43,7 @@ def main(tier, replay=None):
     if exe is None:
         return c.finish(TRUSTED, no_input_break="extraction/OCaml build of the Import/Remove model failed: " + err[-1500:])
 
-    n, nlong = (220, 6) if tier == "quick" else (2400, 60)
+    n, nlong = (220, 6) if tier == "quick" else (1200, 36)
     impl = os.path.join(c.workdir, "impl.txt")
     stats = ""
     if replay:
